@@ -97,6 +97,43 @@ def repetitive_case(task):
     return out
 
 
+def many_files_case(task):
+    """more files than a process may have mappings (vm.max_map_count, 65530 by default; every file and every patch takes one with --mmap)"""
+    import hashlib
+    import os
+    import ws
+    n, threads = task
+    root = os.path.join(wsweep.wdir(), 'ws')
+    out = {'evals': 0, 'nontrivial': 0, 'violations': [], 'outcomes': {}}
+    res = {}
+    for extra in ([], ['--mmap']):
+        ws.make_ws(root, {}, {}, [])
+        os.makedirs(os.path.join(root, 's'))
+        with open(os.path.join(root, 'series'), 'w') as sf:
+            for i in range(n):
+                with open('%s/s/%06d' % (root, i), 'w') as f:
+                    f.write('a\n')
+                with open('%s/patches/%06d.patch' % (root, i), 'w') as f:
+                    f.write('--- a/s/%06d\n+++ b/s/%06d\n@@ -1 +1 @@\n-a\n+b\n' % (i, i))
+                sf.write('%06d.patch\n' % i)
+        o = ws.run_rq(root, ['-a', '-q', '--backup', 'never'] + extra, threads=threads, timeout=120)
+        h = hashlib.sha1()
+        for i in range(n):
+            with open('%s/s/%06d' % (root, i), 'rb') as f:
+                h.update(f.read())
+        applied = len(ws.applied_of(ws.snapshot(os.path.join(root, '.pc'), skip=())) if False else open(os.path.join(root, '.pc', 'applied-patches')).read().split()) if os.path.exists(os.path.join(root, '.pc', 'applied-patches')) else 0
+        res[tuple(extra)] = (o.cls, h.hexdigest(), applied, common.b2s(o.err[-200:]))
+        out['evals'] += 1
+        out['outcomes']['many-files%s:exit-%s' % (''.join(extra), o.cls)] = 1
+    out['nontrivial'] = 1
+    a, b = res[()], res[('--mmap',)]
+    if a[:3] != b[:3]:
+        out['violations'].append(('--mmap+more-files-than-mappings+threads%s1' % ('>' if threads > 1 else '='), b[0] if b[0] not in ('0', '1') else 'differs-from-default-loader',
+                                  {'kind': 'generated', 'how': '%d files s/NNNNNN holding "a", one patch per file changing it to "b"; push -a -q --backup never [--mmap]' % n, 'threads': threads,
+                                   'expected': 'exit %s, %d patches applied' % (a[0], a[2]), 'observed': 'exit %s, %d patches applied, stderr %r' % (b[0], b[2], b[3])}))
+    return out
+
+
 def run(tier, seed):
     res = common.Result('model_checking')
     m0 = tq.initial(with_empty=True)
@@ -141,6 +178,11 @@ def run(tier, seed):
             r['sample'] = {'file_lines': ''.join(rep_tasks[i][0]), 'changed_line': rep_tasks[i][1], 'context': rep_tasks[i][2], 'outcomes': r['outcomes']}
         acc2.add(r)
     acc2.finish('repetitive_files_with_analyses')
+    acc3 = wsweep.Acc(res)
+    for r in wsweep.pmap(many_files_case, [(34000, 1), (34000, 2)] if tier == 'quick' else [(34000, 1), (34000, 2), (70000, 1), (70000, 3)]):
+        acc3.add(r)
+    acc3.finish('more_files_than_mappings')
+    res.coverage['more_files_than_mappings']['rule'] = '34000 (thorough: also 70000) one-line files, one patch each: `push -a` with and without --mmap give the same exit status, contents and applied-patches'
     cov = res.coverage
     cov['series'] = len(series)
     cov['failing_hunk_shapes'] = len(shapes)
